@@ -1441,6 +1441,11 @@ class Executor:
             if isinstance(h, Obj):
                 m = self.ix.method(h.cls, attr)
                 if m is None:
+                    ext = getattr(self.c, "extern_methods", {}).get((h.cls, attr))
+                    if ext is not None:
+                        # method of a class outside the repository (qiskit, ...): the contract supplies its assumed model, listed as an assumption
+                        self.assumptions.add(f"external.{h.cls}.{attr}: {ext.__doc__ or 'assumed model supplied by the contract'}")
+                        return ext(self, base, list(args))
                     raise Unsupported(f"no method {h.cls}.{attr}")
                 return self.call_function(m, [base] + list(args), kwargs, node, bound_cls=m[1], qual=f"{m[1]}.{attr}")
             return bi.container_method(self, base, h, attr, args, kwargs, node)
